@@ -459,6 +459,13 @@ def r11(ctx):
     C06.share_failing_body(ctx, "C07.R11")
 
 
+def r12(ctx):
+    """"while still accepting validly signed remote entries": a read-only document that is being synced stays so when it is
+    opened or imported again - the open/close transition table of the store actor (= C14.R3; enabling sync is sticky)"""
+    from . import C14
+    ctx.share("C07.R12", C14.r3, "C14.R3", floor=4)
+
+
 def run(ctx):
     ctx.run_rule("C07.R1", r1)
     ctx.run_rule("C07.R2", r2)
@@ -471,3 +478,4 @@ def run(ctx):
     ctx.run_rule("C07.R9", r9)
     ctx.run_rule("C07.R10", r10)
     ctx.run_rule("C07.R11", r11)
+    ctx.run_rule("C07.R12", r12)
